@@ -277,7 +277,43 @@ Record hdist := mkHD {
   hd_params : list (text * (Q * bool) * (nat * nat))      (* lower triangle: name, (init, fix), global (row, col) *)
 }.
 (* ---- the record plan of update_random_variable_records (ModelRv.v), one pstep per invocation ---- *)
-From PV Require Import C04.ModelRv.
+From PV Require Import C04.ModelRv C04.ModelCreate.
+(* one call of create_omega_single / create_omega_block: its inputs and the record it returned *)
+Record cobs := mkCO {
+  co_block : bool;                       (* create_omega_block (else create_omega_single) *)
+  co_tab : list (Q * text);              (* str(x) of the values involved *)
+  co_level : nat;                        (* 0 IIV, 1 IOV, 2 RUV *)
+  co_first : bool;                       (* IOV: the distribution is the first with its parameter names *)
+  co_size : nat;
+  co_elems : list (Q * text * bool);     (* lower triangle row by row: init, name, fix of the parameter *)
+  co_eta : nat;                          (* eta_number *)
+  co_root : rres node                    (* the tree of the returned record *)
+}.
+Definition cobs_verdict (c : cobs) : list nat :=
+  let F := ops_of (mkT [] (co_tab c) [] [] []) in
+  let sigma := Nat.eqb (co_level c) 2 in
+  let iov := Nat.eqb (co_level c) 1 in
+  let m := if co_block c
+           then Ok (create_block_root Q F sigma (iov && negb (co_first c)) (co_size c)
+                      (map (fun e => (fst (fst e), snd (fst e))) (co_elems c))
+                      (forallb (fun e => snd e) (co_elems c)) (co_eta c))
+           else match co_elems c with
+                | [(v, name, fx)] =>
+                    create_single_root Q F sigma
+                      (if iov then (if co_first c then SIovFirst else SIovSame) else SPlain) v fx name (co_eta c)
+                | _ => Err EInternal
+                end in
+  (* 27: the record create_omega_single / create_omega_block returned is the model's *)
+  tag (match m, co_root c with
+       | Ok a, ROk b => node_eqb a b
+       | Err _, RErr _ => true
+       | _, _ => false
+       end) 27.
+
+(* 252: a later IOV occasion is created for a FIXED parameter ('BLOCK(1) SAME FIX') *)
+Definition cobs_same_fix (c : cobs) : bool :=
+  negb (co_block c) && Nat.eqb (co_level c) 1 && negb (co_first c) && existsb (fun e => snd e) (co_elems c).
+
 Record pstep := mkPS {
   ps_in_old : list nat;            (* keys of the distributions python finds "in" old_random_variables *)
   ps_old_names : list text;        (* parameter names of the old / new etas (or epsilons) *)
@@ -285,7 +321,8 @@ Record pstep := mkPS {
   ps_lens : list nat;              (* len(record) of the records of this type *)
   ps_diff : list (nat * pdist);    (* the rvs_diff handed to the loop: 0 keep, 1 add, 2 remove *)
   ps_raised : bool;                (* the invocation raised *)
-  ps_log : list paction            (* the calls the loop made, in order (PUpdate carries only the names) *)
+  ps_log : list paction;           (* the calls the loop made, in order (PUpdate carries only the names) *)
+  ps_created : list cobs           (* the create_omega_* calls among them, with their results *)
 }.
 Definition op_of_nat (n : nat) : op := match n with 0 => Keep | 1 => Add | _ => Del end.
 Fixpoint nats_eqb (a b : list nat) : bool :=
@@ -322,7 +359,8 @@ Definition pstep_verdict (p : pstep) : list nat :=
   ++ tag (match rv_loop (ps_in_old p) kept (ps_lens p) d (0, 0, [], [], 1) with
           | Ok plan => plan_matches (negb (ps_raised p)) plan (ps_log p)
           | Err _ => ps_raised p
-          end) 26.
+          end) 26
+  ++ flat_map cobs_verdict (ps_created p).
 (* 251: some invocation is outside the guard of rv_plan_realises (a record with several diagonal items
    is entered); class information only *)
 Definition pstep_aligned (p : pstep) : bool :=
@@ -340,16 +378,6 @@ Record hstep := mkHS {
   hs_plans : list pstep                  (* every invocation of update_random_variable_records during the step *)
 }.
 
-Definition digits_nat (n : nat) : text := text_of_N (N.of_nat n).
-Definition default_rv_name (sigma : bool) (rc : nat * nat) : text :=
-  (if sigma then [83; 73; 71; 77; 65; 95] else [79; 77; 69; 71; 65; 95])%N
-  ++ digits_nat (fst rc) ++ [95%N] ++ digits_nat (snd rc).
-Fixpoint is_prefix (p t : text) : bool :=
-  match p, t with
-  | [], _ => true
-  | x :: p', y :: t' => N.eqb x y && is_prefix p' t'
-  | _, [] => false
-  end.
 (* 241: a parameter carrying a positional default name sits at another position *)
 Definition default_name_moved (d : hdist) : bool :=
   existsb (fun p => let '(nm, _, rc) := p in
@@ -434,6 +462,7 @@ Definition hstep_verdict (c : hstep) : list nat :=
   end
   ++ flat_map pstep_verdict (hs_plans c)
   ++ (if forallb pstep_aligned (hs_plans c) then [] else [251])
+  ++ (if existsb (fun p => existsb cobs_same_fix (ps_created p)) (hs_plans c) then [252] else [])
   ++ (if existsb default_name_moved mem then [241] else [])
   ++ (if existsb partial_fix mem then [242] else [])
   ++ (if multi_item_touched omegas 0 0 (hs_gone c)
